@@ -80,7 +80,14 @@ func genGroup(rt *rapid.T) Group {
 		}
 		return Group{Recs: recs}
 	}
-	return Group{Recs: genC09(rt).Recs}
+	recs := genC09(rt).Recs
+	if len(recs) > 1 && rapid.IntRange(0, 3).Draw(rt, "eoeinside") == 0 {
+		// an end-of-event marker that is not the last record (a record arrived late)
+		pos := rapid.IntRange(0, len(recs)-1).Draw(rt, "eoepos")
+		e := kenc.Rec{Type: 1320, Sec: recs[0].Sec, Ms: recs[0].Ms, Seq: recs[0].Seq}
+		recs = append(append(append([]kenc.Rec{}, recs[:pos]...), e), recs[pos:]...)
+	}
+	return Group{Recs: recs}
 }
 
 func genC15(rt *rapid.T) C15Case {
@@ -240,6 +247,7 @@ func propC15(c C15Case) error {
 	users, groups := aucoalesce.NewUserCache(time.Hour), aucoalesce.NewGroupCache(time.Hour)
 	type pool struct {
 		msgs   []*auparse.AuditMessage
+		ptrs   []*auparse.AuditMessage // copy of the slice contents: the caller's slice must not be rearranged
 		snaps  []msgSnap
 		first  *evSnap // first coalescing result
 		ferr   string
@@ -250,6 +258,7 @@ func propC15(c C15Case) error {
 	pools := make([]*pool, len(c.Groups))
 	for i, g := range c.Groups {
 		p := &pool{msgs: g.parse()}
+		p.ptrs = append([]*auparse.AuditMessage(nil), p.msgs...)
 		for _, m := range p.msgs {
 			p.snaps = append(p.snaps, snapMsg(m))
 		}
@@ -257,6 +266,14 @@ func propC15(c C15Case) error {
 	}
 	checkAll := func(at string) error {
 		for gi, p := range pools {
+			if len(p.msgs) != len(p.ptrs) {
+				return fmt.Errorf("%s\n  %s: the message slice of group %d changed its length", c.Describe(), at, gi)
+			}
+			for mi := range p.msgs {
+				if p.msgs[mi] != p.ptrs[mi] {
+					return fmt.Errorf("%s\n  %s: the caller's message slice of group %d was rearranged: position %d now holds another message (type %v)", c.Describe(), at, gi, mi, p.msgs[mi].RecordType)
+				}
+			}
 			for mi, m := range p.msgs {
 				if now := snapMsg(m); !reflect.DeepEqual(now, p.snaps[mi]) {
 					return fmt.Errorf("%s\n  %s: message %d of group %d reports something else than before:\n   before %+v\n   after  %+v", c.Describe(), at, mi, gi, p.snaps[mi], now)
